@@ -35,6 +35,7 @@ RULE = ("base queries: SQLAlchemy select / legacy Query - unfiltered, pre-filter
         "distinct (base, filter, instance); non-trivial = base returns rows and the filter "
         "keeps some and drops some of them")
 RULE += (" " + 'Also: bases rooted at aliased() entities (6 kinds); Post.home NOT NULL, dangling keys (SQLAlchemy), relationship name shared by two entities, Profile one-to-one.')
+RULE += (" " + 'Bases joining an aliased related entity (other route, ON clause, along the relationship, legacy Query) x 9 fixed filters per instance.')
 ASSUMPTIONS = ["LIMIT/OFFSET bases are excluded (SQLAlchemy's generative where and Django's "
                "'cannot filter once sliced' define those, not this library)",
                "reference evaluation over the object graph (vpmon/gen/relational.py)"]
